@@ -99,6 +99,20 @@ CHECKS["C06"] = dict(
     level_text="Bounded symbolic execution of doModify + RIB from symbolic requests: per-id verdict counting over the emitted results, RIB-before-FIB order, and held-set bookkeeping (answered xor held) decided for all symbolic keys/references/instance names.",
     level_note=_RIBNOTE)
 
+CHECKS["C16"] = dict(
+    runs=[dict(pkg="rib", harness="VfC16_mirror_q", reach=["end", "pre-built"], thorough=dict(skip=True), opts=dict(only=["C16:"]),
+               bounds="post-change hook registered on a two-instance RIB; canonical pre-state (1 next-hop, 1 group, 1 held operation) and one fully symbolic operation, mirror compared with the reference after the build and after the step (includes resolution of held operations)"),
+          dict(pkg="rib", harness="VfC16_mirror_q1", reach=["end", "pre-built"], thorough=dict(skip=True), opts=dict(only=["C16:"]),
+               bounds="as mirror_q with an installed IPv4/MPLS entry instead of the held operation (replaces and deletes of top-level entries)"),
+          dict(pkg="rib", harness="VfC16_mirror_t", reach=["end", "pre-built"], quick=dict(skip=True), opts=dict(only=["C16:"]),
+               bounds="as mirror_q with all top-level kinds, slots in either instance, optional payload fields, groups of <=2 members"),
+          dict(pkg="rib", harness="VfC16_flush", reach=["end", "pre-built"], opts=dict(only=["C16:"]), bounds="notifications issued by Flush of {default}, {vrf}, both"),
+          dict(pkg="rib", harness="VfC16_resolved", reach=["end"], opts=dict(only=["C16:"]), bounds="resolved-entry hook: ADD then DELETE of a symbolic IPv4/IPv6/MPLS entry; snapshots checked for content, privacy and stability"),
+          dict(pkg="server", harness="VfC16_serverHooks", reach=["end"], bounds="server.New with the hook and VRF options in either order, plus AddNetworkInstance afterwards; one change per instance")],
+    assumptions=["ygot.DeepCopy is modelled as a structural deep copy of the heap graph"],
+    level_text="Bounded symbolic execution: a consumer folding the notifications is compared with the reference state after every operation, cascade and Flush; server construction is executed for both option orders.",
+    level_note=_RIBNOTE)
+
 NOT_APPLICABLE = {
     "C19": "whole compliance-suite runs over in-memory gRPC against wrapped servers in every order: a whole-program execution through gRPC, testing and reflection; no bounded symbolic encoding within reach (DESIGN.md §8)",
 }
